@@ -41,6 +41,7 @@ type Lemma struct {
 	Reveal    []string  // hidden spec functions whose definitions this proof may unfold
 	Haves     []*Clause // intermediate assertions: proved first (in order), then assumed
 	Unfold    int       // unfolding depth for recursive functions
+	TwoState  bool      // old(e) denotes e in a second, arbitrary heap (frame lemmas)
 	Axiom     bool      // trusted, not proved
 	Props     []string
 	Src       string
@@ -110,6 +111,7 @@ type FuncContract struct {
 }
 
 type Contracts struct {
+	LoadErrors []string
 	Specs  map[string]*SpecFunc // key pkg.name
 	Lemmas map[string]*Lemma
 	Funcs  map[string]*FuncContract // key pkg.Key
@@ -225,6 +227,21 @@ func (cs *Contracts) parseFile(pkg string, lines []string, where string) {
 	var curS *SpecFunc
 	for n, it := range items {
 		w := fmt.Sprintf("%s#%d(%s)", where, n, it.kw)
+		cs.parseItem(pkg, it, w, where, &curF, &curL, &curS)
+	}
+}
+
+// parseItem handles one directive; a malformed directive is recorded and skipped (it must not take down the
+// contracts of other files: several people edit contract files at the same time).
+func (cs *Contracts) parseItem(pkg string, it item, w, where string, pcurF **FuncContract, pcurL **Lemma, pcurS **SpecFunc) {
+	curF, curL, curS := *pcurF, *pcurL, *pcurS
+	defer func() {
+		*pcurF, *pcurL, *pcurS = curF, curL, curS
+		if r := recover(); r != nil {
+			cs.LoadErrors = append(cs.LoadErrors, fmt.Sprint(r))
+		}
+	}()
+	for range []int{0} {
 		switch it.kw {
 		case "spec":
 			// spec func name(params) type [rec] { body }   or without body (uninterpreted)
@@ -281,6 +298,10 @@ func (cs *Contracts) parseFile(pkg string, lines []string, where string) {
 			lm := &Lemma{Pkg: pkg, Src: it.text, Axiom: it.kw == "axiom"}
 			lm.Name = p.expectId()
 			lm.Params = parseParams(p)
+			if p.isId("twostate") {
+				p.next()
+				lm.TwoState = true
+			}
 			cs.Lemmas[pkg+"."+lm.Name] = lm
 			cs.Order = append(cs.Order, pkg+"."+lm.Name)
 			curL, curF, curS = lm, nil, nil
